@@ -246,6 +246,26 @@ func (o *OLVM) Plan(c *Ctx) []hist.TxSpec {
 			bad.Meta = map[string]string{"from": es[0].Addr.String(), "nonce": fmt.Sprint(n + 4), "value": "13", "to": keys.Address(to.Bytes()).String(), "data": "", "expect": "fail"}
 			out = append(out, bad, o.tx(c, es[1], &a, big.NewInt(0), nil, 40000, "call log emitter right after a failed transaction"))
 		}
+	case 36:
+		// a transaction made, consistently, for another network: payload chain id and signature both name it
+		{
+			to := ethcmn.BytesToAddress(es[1].Addr)
+			n := o.nonce[es[0].Addr.String()]
+			bz := OLVMTx(c, es[0], c.W.EthKeys[es[0].Addr.String()], n, &to, big.NewInt(6), nil, 21000, "1000000000", big.NewInt(424242), fmt.Sprint(n))
+			sp := hist.TxSpec{Kind: "OLVM", Bytes: bz, Note: "transaction made for another network (chain id 424242 in payload and signature)", Signers: []string{es[0].Addr.String()}, Force: true}
+			sp.Meta = map[string]string{"from": es[0].Addr.String(), "nonce": fmt.Sprint(n), "value": "6", "to": keys.Address(to.Bytes()).String(), "data": "", "expect": "fail", "foreign_chain": "424242"}
+			out = append(out, sp)
+		}
+	case 38:
+		// value is sent to the address the sender's next deployment will get ...
+		{
+			n := o.nonce[es[0].Addr.String()]
+			future := ethcrypto.CreateAddress(ethcmn.BytesToAddress(es[0].Addr), n+1)
+			out = append(out, o.tx(c, es[0], &future, big.NewInt(3000), nil, 21000, "plain transfer to the address of the sender's next deployment"))
+		}
+	case 39:
+		// ... and the deployment follows (with an endowment)
+		out = append(out, o.create(c, es[0], "prefunded", rtStore, big.NewInt(11)))
 	case 34:
 		if a, ok := o.contracts["loop"]; ok {
 			out = append(out, o.tx(c, es[1], &a, big.NewInt(4242), nil, 40000, "value sent into an infinite loop (out of gas)"))
